@@ -8,7 +8,7 @@ MEM = re.compile(r"^\[\s*(\w+)\s*(,\s*#?(-?\d+)\s*)?\](!)?$")
 KNOWN = {"ADD", "SUB", "MUL", "SDIV", "MSUB", "B", "BR", "BL", "ADR", "MOV", "MOVZ", "MOVN", "MOVK", "LDR", "LDP",
          "STR", "STP", "CMP", "BEQ", "BNE", "BLT", "BLE", "BGT", "BGE", "RET",
          # forms the backend does not print today but a different instruction selection may (modelled in spec/A64.tla)
-         "CBZ", "CBNZ", "NEG", "MVN", "AND", "ORR", "EOR", "LSL", "LSR", "ASR", "TBZ", "TBNZ", "MADD", "NOP", "SUBS", "ADDS", "BMI", "BPL"}
+         "CBZ", "CBNZ", "NEG", "MVN", "AND", "ORR", "EOR", "LSL", "LSR", "ASR", "TBZ", "TBNZ", "MADD", "NOP", "SUBS", "ADDS", "BMI", "BPL", "BLR"}
 ALIASES = {"B.EQ": "BEQ", "B.NE": "BNE", "B.LT": "BLT", "B.LE": "BLE", "B.GT": "BGT", "B.GE": "BGE", "B.MI": "BMI", "B.PL": "BPL"}
 
 def operand(s):
